@@ -161,18 +161,25 @@ def json_depth(v) -> int:
 # ---- registries ---------------------------------------------------------------------------------
 
 B = gw.b
+num = lib.num
 
 
 def render_nodes(nodes: dict) -> str:
-    """Same format as DriverPersist.lean's showReg (dict order)."""
+    """Same format as DriverPersist.lean's showReg (dict order).  The registry is an object of the REAL library
+    (built by its handlers or its load): whatever its keys and attributes hold - None, a float, a bool, an integer
+    beyond the digit limit, an entry that is not a Node at all - is rendered (lib.enc / lib.num: `!type!...` tokens
+    the model never prints), never a crash of the harness."""
     out = []
     for k, n in nodes.items():
-        children = []
-        for ck, c in n.children.items():
-            vals = ",".join(f"{t}={enc(v)}" for t, v in c.values.items())
-            children.append(f"{ck}/{c.child_id}/{c.child_type}/{enc(c.description)}/{{{vals}}}")
-        out.append(f"{k}:{n.node_type}:{enc(n.protocol_version)}:{enc(n.sketch_name)}:{enc(n.sketch_version)}:"
-                   f"{n.battery_level}:{n.heartbeat}:{B(n.reboot)}:{B(n.sleeping)}:[{';'.join(children)}]")
+        try:
+            children = []
+            for ck, c in n.children.items():
+                vals = ",".join(f"{num(t)}={enc(v)}" for t, v in c.values.items())
+                children.append(f"{num(ck)}/{num(c.child_id)}/{num(c.child_type)}/{enc(c.description)}/{{{vals}}}")
+            out.append(f"{num(k)}:{num(n.node_type)}:{enc(n.protocol_version)}:{enc(n.sketch_name)}:{enc(n.sketch_version)}:"
+                       f"{num(n.battery_level)}:{num(n.heartbeat)}:{B(n.reboot)}:{B(n.sleeping)}:[{';'.join(children)}]")
+        except Exception as e:  # noqa: BLE001  (not a Node / Child, children or values not a dict ...)
+            out.append(f"{num(k)}:!unrenderable!{type(e).__name__}!{enc(lib.safe_repr(n)[:200])}")
     return "[" + "|".join(out) + "]"
 
 
@@ -205,6 +212,15 @@ def parse_reg(text: str):
     return reg
 
 
+def same_reg_text(a: str, b: str) -> bool:
+    """Two rendered registries equal up to dict order.  A rendering of a registry the real load produced may hold
+    tokens parse_reg does not know (lib.enc / lib.num markers): then only the same text is the same registry."""
+    try:
+        return parse_reg(a) == parse_reg(b)
+    except Exception:  # noqa: BLE001
+        return a == b
+
+
 def reg_ops(nodes: dict) -> list[str]:
     ops = ["rnew"]
     for k, n in nodes.items():
@@ -227,14 +243,33 @@ def reg_has_surrogate(nodes: dict) -> bool:
     return False
 
 
+_MISSING = "<no such attribute>"
+
+
+def _jsonable(v):
+    if type(v) is int and not abs(v) < 10 ** MAXD:
+        return f"<int of {v.bit_length()} bits, beyond the digit limit>"
+    return v if v is None or type(v) in (bool, int, float, str) else f"<{type(v).__name__}> {lib.safe_repr(v)[:200]}"
+
+
 def describe(nodes: dict):
-    """A replayable description of a registry (JSON-able)."""
-    return [{"key": k, "node_id": n.node_id, "node_type": n.node_type, "protocol_version": n.protocol_version,
-             "sketch_name": n.sketch_name, "sketch_version": n.sketch_version, "battery_level": n.battery_level,
-             "heartbeat": n.heartbeat, "sleeping": n.sleeping, "reboot": n.reboot,
-             "children": [{"key": ck, "child_id": c.child_id, "child_type": c.child_type, "description": c.description,
-                           "values": [[t, v] for t, v in c.values.items()]} for ck, c in n.children.items()]}
-            for k, n in nodes.items()]
+    """A replayable description of a registry (JSON-able, whatever the real objects hold)."""
+    out = []
+    for k, n in nodes.items():
+        d = {"key": _jsonable(k)}
+        for at in ("node_id", "node_type", "protocol_version", "sketch_name", "sketch_version", "battery_level", "heartbeat",
+                   "sleeping", "reboot"):
+            d[at] = _jsonable(getattr(n, at, _MISSING))
+        try:
+            d["children"] = [{"key": _jsonable(ck), "child_id": _jsonable(getattr(c, "child_id", _MISSING)),
+                              "child_type": _jsonable(getattr(c, "child_type", _MISSING)),
+                              "description": _jsonable(getattr(c, "description", _MISSING)),
+                              "values": [[_jsonable(t), _jsonable(v)] for t, v in c.values.items()]}
+                             for ck, c in n.children.items()]
+        except Exception:  # noqa: BLE001
+            d["children"] = _jsonable(getattr(n, "children", _MISSING))
+        out.append(d)
+    return out
 
 
 def build(desc) -> dict:
@@ -253,24 +288,79 @@ def build(desc) -> dict:
     return nodes
 
 
+def native_value(nodes: dict) -> dict:
+    """The file value of a well-typed registry in the native layout, written down by the harness (not the library)."""
+    return {str(k): {"node_id": n.node_id, "node_type": n.node_type, "protocol_version": n.protocol_version,
+                     "sketch_name": n.sketch_name, "sketch_version": n.sketch_version, "battery_level": n.battery_level,
+                     "heartbeat": n.heartbeat, "sleeping": n.sleeping,
+                     "children": {str(ck): {"child_id": c.child_id, "child_type": c.child_type, "description": c.description,
+                                            "values": {str(t): v for t, v in c.values.items()}} for ck, c in n.children.items()}}
+            for k, n in nodes.items()}
+
+
 def digits_ok(n: int) -> bool:
     return abs(n) < 10 ** MAXD
 
 
+ATTRS = ("node_id", "node_type", "protocol_version", "sketch_name", "sketch_version", "battery_level", "heartbeat", "sleeping")
+ATTR_TYPES = {"node_id": int, "node_type": int, "protocol_version": str, "sketch_name": str, "sketch_version": str,
+              "battery_level": int, "heartbeat": int, "sleeping": bool}
+
+
+R = lib.safe_repr
+
+
+def ill_typed(nodes) -> str | None:
+    """None when every key and attribute of the registry has exactly the type the library declares for it (`Node` /
+    `Child` signatures; what the Lean model's Registry can hold at all); otherwise the first place that has not.  A
+    registry the real handlers built may hold anything (None for a version that was never learnt, a float, a bool):
+    such a registry is judged by the oracle alone - the model has no value to compare it with."""
+    if type(nodes) is not dict:
+        return f"the registry is a {type(nodes).__name__}"
+    for k, n in nodes.items():
+        if type(k) is not int:
+            return f"node key {R(k)} is a {type(k).__name__}"
+        if not isinstance(n, Node):
+            return f"entry {k} is a {type(n).__name__}"
+        for at, ty in {**ATTR_TYPES, "reboot": bool}.items():
+            v = getattr(n, at, _MISSING)
+            if type(v) is not ty:
+                return f"node {k}.{at} = {R(v)} is a {type(v).__name__}, not {ty.__name__}"
+        if type(getattr(n, "children", None)) is not dict:
+            return f"node {k}.children is a {type(getattr(n, 'children', None)).__name__}"
+        for ck, c in n.children.items():
+            if type(ck) is not int:
+                return f"node {k} child key {R(ck)} is a {type(ck).__name__}"
+            if not isinstance(c, Child):
+                return f"node {k} child {ck} is a {type(c).__name__}"
+            for at, ty in (("child_id", int), ("child_type", int), ("description", str)):
+                v = getattr(c, at, _MISSING)
+                if type(v) is not ty:
+                    return f"node {k} child {ck}.{at} = {R(v)} is a {type(v).__name__}, not {ty.__name__}"
+            if type(getattr(c, "values", None)) is not dict:
+                return f"node {k} child {ck}.values is a {type(getattr(c, 'values', None)).__name__}"
+            for t, v in c.values.items():
+                if type(t) is not int or type(v) is not str:
+                    return f"node {k} child {ck} value {R(t)}: {R(v)} ({type(t).__name__}: {type(v).__name__})"
+    return None
+
+
 def in_domain(nodes: dict) -> bool:
     """C13's domain restated in Python (independent of the model's regOK): what the gateway can
-    build — node ids 0-255 stored under their id, battery level 0-100, every integer printable by
-    json.dumps.  (A child stored under a key other than its id also round-trips: key and child_id are
-    independent in the file.)"""
+    build - every key and attribute of the declared type, node ids 0-255 stored under their id, battery level 0-100,
+    every integer printable by json.dumps.  (A child stored under a key other than its id also round-trips: key and
+    child_id are independent in the file.)"""
+    if ill_typed(nodes) is not None:
+        return False
     for k, n in nodes.items():
-        if not (type(k) is int and n.node_id == k and 0 <= k <= 255 and 0 <= n.battery_level <= 100):
+        if not (n.node_id == k and 0 <= k <= 255 and 0 <= n.battery_level <= 100):
             return False
-        if not all(type(x) is int and digits_ok(x) for x in (n.node_type, n.heartbeat, n.battery_level)):
+        if not all(digits_ok(x) for x in (n.node_type, n.heartbeat, n.battery_level)):
             return False
         for ck, c in n.children.items():
-            if not (type(ck) is int and digits_ok(ck) and type(c.child_type) is int and digits_ok(c.child_type)):
+            if not (digits_ok(ck) and digits_ok(c.child_type)):
                 return False
-            if not all(type(t) is int and digits_ok(t) for t in c.values):
+            if not all(digits_ok(t) for t in c.values):
                 return False
     return True
 
@@ -284,37 +374,46 @@ def real_ok(nodes: dict) -> bool:
         if n.reboot or list(n.children) != sorted(n.children):
             return False
         for c in n.children.values():
-            if not (type(c.child_id) is int and digits_ok(c.child_id)) or list(c.values) != sorted(c.values):
+            if not digits_ok(c.child_id) or list(c.values) != sorted(c.values):
                 return False
     return True
 
 
-ATTRS = ("node_id", "node_type", "protocol_version", "sketch_name", "sketch_version", "battery_level", "heartbeat", "sleeping")
-ATTR_TYPES = {"node_id": int, "node_type": int, "protocol_version": str, "sketch_name": str, "sketch_version": str,
-              "battery_level": int, "heartbeat": int, "sleeping": bool}
+def _differ(u, v) -> bool:
+    try:
+        return bool(u != v)
+    except Exception:  # noqa: BLE001  (values of the code under test whose comparison fails are not "identical")
+        return True
 
 
 def same_registry(a: dict, b: dict):
     """C13's own words: every node and child with identical id, type, version, sketch name and
-    version, battery level, heartbeat, sleeping flag, description and values.  Returns a reason or None."""
-    if set(a) != set(b):
-        return f"node ids differ: {sorted(a)} vs {sorted(b)}"
-    for k in a:
-        x, y = a[k], b[k]
-        for at in ATTRS:
-            u, v = getattr(x, at), getattr(y, at)
-            if u != v or type(v) is not ATTR_TYPES[at] or type(u) is not ATTR_TYPES[at]:
-                return f"node {k}.{at}: {u!r} vs {v!r}"
-        if set(x.children) != set(y.children):
-            return f"node {k} children: {sorted(x.children)} vs {sorted(y.children)}"
-        for ck in x.children:
-            c, d = x.children[ck], y.children[ck]
-            for at in ("child_id", "child_type", "description"):
-                u, v = getattr(c, at), getattr(d, at)
-                if u != v or type(u) is not type(v):
-                    return f"node {k} child {ck}.{at}: {u!r} vs {v!r}"
-            if c.values != d.values or any(type(t) is not int or type(v) is not str for t, v in d.values.items()):
-                return f"node {k} child {ck} values: {c.values!r} vs {d.values!r}"
+    version, battery level, heartbeat, sleeping flag, description and values.  Returns a reason or None.
+    `a` is a registry the real library built, `b` one its load produced: no assumption on what either holds."""
+    ks = lib.key_sorted
+    try:
+        if type(a) is not dict or type(b) is not dict:
+            return f"not two dicts: {type(a).__name__} vs {type(b).__name__}"
+        if set(a) != set(b) or any(type(k) is not int for k in b):
+            return f"node ids differ: {ks(a)} vs {ks(b)}"
+        for k in a:
+            x, y = a[k], b[k]
+            for at in ATTRS:
+                u, v = getattr(x, at, _MISSING), getattr(y, at, _MISSING)
+                if _differ(u, v) or type(v) is not ATTR_TYPES[at] or type(u) is not ATTR_TYPES[at]:
+                    return f"node {k}.{at}: {R(u)} vs {R(v)}"
+            if set(x.children) != set(y.children):
+                return f"node {k} children: {ks(x.children)} vs {ks(y.children)}"
+            for ck in x.children:
+                c, d = x.children[ck], y.children[ck]
+                for at in ("child_id", "child_type", "description"):
+                    u, v = getattr(c, at, _MISSING), getattr(d, at, _MISSING)
+                    if _differ(u, v) or type(u) is not type(v):
+                        return f"node {k} child {ck}.{at}: {R(u)} vs {R(v)}"
+                if _differ(c.values, d.values) or any(type(t) is not int or type(v) is not str for t, v in d.values.items()):
+                    return f"node {k} child {ck} values: {R(c.values)} vs {R(d.values)}"
+    except Exception as e:  # noqa: BLE001  (an entry that is not a Node / Child, children that are not a dict ...)
+        return f"the two registries cannot be compared attribute by attribute ({type(e).__name__}: {e})"
     return None
 
 
@@ -370,29 +469,73 @@ def fresh_path(ext: str = ".json") -> str:
     return os.path.join(lib.scratch(), f"persist-{_counter[0]}{ext}")
 
 
-async def run_history(h: gw.Hist) -> dict:
-    """The registry the real gateway holds after the history (same stepping as gw._run_impl)."""
+def _fields(line: str):
+    f = line.split(";")
+    return f if len(f) >= 6 else None
+
+
+async def run_history(h: gw.Hist, points=None, trace: list | None = None):
+    """The registry the real gateway holds after the history (same stepping as gw._run_impl).
+    `points`: None, or a collection of step numbers / the string "all": returns (final registry, [(step, copy of the
+    registry after that step, facts)]) for every asked step after which the rendered registry differs from the last
+    one returned - the registries a save at that point of the history would write - and the facts at the end.  facts
+    (how the registry came about, for the run's coverage counts only): was an id handed out while the gateway's version
+    was not known / known; does the registry hold a node that was handed an id and has not presented itself; the kind
+    (command/type) of the message of that step.  `trace`: filled with one line per step."""
     g, tr = gw.build_gateway(h)
-    for op in h.ops:
+    snaps: list = []
+    last = render_nodes(g.nodes)
+    handed: set = set()
+    facts = {"id handed out while the gateway's version was not known": False, "id handed out while the version was known": False}
+
+    def facts_now(kind):
+        return {**facts, "holds a node that was handed an id and never presented itself": any(i in g.nodes for i in handed), "kind": kind}
+
+    kind = None
+    for i, op in enumerate(h.ops, 1):
         tr.attempts = []
+        kind = None
         if op[0] == "recv":
             _, line, faults, now = op
             tr.lines = [line]
             tr.faults = list(faults)
             gw.TIME_STUB.now = tuple(now)
+            unknown = g.protocol_version is None
             try:
-                await anext(g.listen())
-            except BaseException:  # noqa: BLE001  (rejected lines are part of a history)
-                pass
+                out = gw.render_msg(await anext(g.listen()))
+            except BaseException as e:  # noqa: BLE001  (rejected lines are part of a history)
+                out = gw.render_exc(e)
+            f = _fields(line)
+            if f is not None:
+                kind = f"{f[2].strip()}/{f[4].strip()}" if f[2].strip() in ("3", "4") else f[2].strip() + ("/node" if f[1].strip() == "255" else "/child")
+                for w, ok in tr.attempts:
+                    wf = _fields(w.rstrip("\n"))
+                    if ok and wf is not None and wf[2:5] == ["3", "0", "4"] and wf[5].isdigit():
+                        handed.add(int(wf[5]))
+                        facts["id handed out while the gateway's version was not known" if unknown else "id handed out while the version was known"] = True
+                if out.startswith("ok") and f[2].strip() == "0" and f[1].strip() == "255" and f[0].strip().isdigit():
+                    handed.discard(int(f[0]))
+        elif op[0] == "session":
+            out = "(leaving and entering the context: not part of this run)"
         else:
             _, fields, buffer, faults = op
             tr.faults = list(faults)
             obj = Message(*fields) if fields is not None else "not a message"
             try:
                 await g.send(obj, message_buffer=buffer)
-            except BaseException:  # noqa: BLE001
-                pass
-    return g.nodes
+                out = "ok"
+            except BaseException as e:  # noqa: BLE001
+                out = gw.render_exc(e)
+        if trace is not None:
+            pv = "not known" if g.protocol_version is None else repr(g.protocol_version)
+            trace.append(f"step {i}: {op[0]} {op[1]!r} -> {out[:100]}   [gateway version {pv}; writes "
+                         f"{[w for w, _ in tr.attempts]}; registry {render_nodes(g.nodes)[:400]}]")
+        if points is not None and (points == "all" or i in points):
+            now_reg = render_nodes(g.nodes)
+            if now_reg != last:
+                last = now_reg
+                snaps.append((i, copy.deepcopy(g.nodes), facts_now(kind)))
+    return g.nodes if points is None else (g.nodes, snaps, facts_now(kind))
 
 
 # ---- legacy layout, restated in Python ----------------------------------------------------------
@@ -514,15 +657,71 @@ WIRE_BOUNDARY = [
 ]
 
 
-def wire_histories(rng, tier: str):
+def handler_sweep(version: str, node: int, child: int, with_id_request: bool = True) -> list[str]:
+    """One received line for every handler the protocol of `version` has, addressed to `node`: read from the tables
+    generated from the code on this run (every command; every internal type that has a handler, every stream type), so
+    a handler added to the code is swept too.  Payloads: a number every numeric handler accepts, then a text."""
+    t = gw.T["versions"][version]
+    chain = gw.T["chains"][version]
+    named = gw.T["named"]
+    setreq = sorted(int(x) for x in t["setreq"])
+    lines = [f"{node};{child};{named['cmdPresentation']};0;6;outdoor é",
+             f"{node};{child};{named['cmdSet']};0;{setreq[0]};20.5", f"{node};{child};{named['cmdSet']};0;{setreq[-1]};on;off",
+             f"{node};{child};{named['cmdSet']};1;{setreq[0]};21", f"{node};{child};{named['cmdReq']};0;{setreq[0]};"]
+    for ty in sorted(int(x) for x in t["internal"]):
+        if chain["internal"].get(str(ty)) is None:
+            continue                                   # no handler: the message is passed on as it is
+        if ty == named["iVersion"]:
+            payloads = [version]                       # (anything else would change the protocol in use mid-sweep)
+        elif ty in t.get("nodeIdRequestTypes", [3]) and not with_id_request:
+            continue
+        else:
+            payloads = ["57", "Sketch é 1.0"]
+        for pl in payloads:
+            lines.append(f"{node};255;{named['cmdInternal']};0;{ty};{pl}")
+    for ty in sorted(int(x) for x in t["stream"]):
+        lines.append(f"{node};255;{named['cmdStream']};0;{ty};0102")
+    return lines
+
+
+def systematic_wire_histories():
+    """For every protocol version, with the gateway's version known from the start and not known: an id request as the
+    very first message (the placeholder node is created before the version query was answered), every handler on that
+    node, which never presents itself; then the version becomes known and the gateway presents itself; another id
+    request; a node that presents itself, every handler on it; every handler on the gateway's own node and on a node
+    that is not registered; at last the first placeholder presents itself.  C13 quantifies over every registry
+    reachable from received messages: run_c13 saves after EVERY step of these histories that changed the registry."""
+    hs = []
+    named = gw.T["named"]
+    idreq = f"255;255;{named['cmdInternal']};0;3;"
+    for version in lib.VERSIONS:
+        for known in (False, True):
+            lines = [idreq] + handler_sweep(version, 1, 1)
+            lines += [f"0;255;{named['cmdInternal']};0;{named['iVersion']};{version}", f"0;255;{named['cmdPresentation']};0;18;{version}.0", idreq]
+            lines += [f"7;255;{named['cmdPresentation']};0;17;{version}"] + handler_sweep(version, 7, 2)
+            lines += handler_sweep(version, 0, 3, with_id_request=False)
+            lines += handler_sweep(version, 9, 4, with_id_request=False)
+            lines += [f"1;255;{named['cmdPresentation']};0;17;{version}", f"1;5;{named['cmdPresentation']};0;3;relay"]
+            hs.append((f"wire-systematic: protocol {version}, version {'known' if known else 'not known'} at start",
+                       gw.Hist(version if known else None, True, [], [("recv", ln, (), T0) for ln in lines])))
+    return hs
+
+
+def wire_histories(rng, tier: str, pts):
+    """(label, history, save points): "all" = after every step that changed the registry; a set of steps; the end of the
+    history is always a save point."""
     hs = []
     for version, lines in WIRE_BOUNDARY:
-        hs.append(("wire-boundary", gw.Hist(version, True, [], [("recv", ln, (), T0) for ln in lines])))
+        hs.append(("wire-boundary", gw.Hist(version, True, [], [("recv", ln, (), T0) for ln in lines]), "all"))
+    for label, h in systematic_wire_histories():
+        hs.append((label, h, "all"))
+    for h in lib.EXTRA_HISTORIES:          # histories on which the code as translated leaves the model (check.tie_search)
+        hs.append(("wire-tie-search", h, "all"))
     k = 400 if tier == "quick" else 2500
     for i in range(k):
         version = lib.VERSIONS[i % 5]
         h = gw.gen_history(rng, version, rng.randint(5, 40 if tier == "quick" else 120), preload_p=0.0)
-        hs.append(("wire-random", h))
+        hs.append(("wire-random", h, {pts.randint(1, len(h.ops)) for _ in range(1 if tier == "quick" else 2)}))
     return hs
 
 
@@ -866,6 +1065,23 @@ def text_checks(corr: Corr, batch: "Batch", cases, rng, tier: str) -> "TextCheck
 # ---- C13 -----------------------------------------------------------------------------------------
 
 
+def read_saved(path: str, c: dict) -> None:
+    """What a save that returned left on disk: c["bytes"], c["text"], c["saved"] (the parsed value, None when the
+    text is not JSON json.loads accepts - then c["unparsable"] says why).  A file the real save wrote is evidence to
+    be judged, whatever it holds; a save that returned without leaving a file is a failed save."""
+    try:
+        with open(path, "rb") as f:
+            c["bytes"] = f.read()
+    except OSError as e:
+        c["save"] = f"returned, but the file cannot be read: {type(e).__name__}"
+        return
+    c["text"] = c["bytes"].decode("utf-8", "replace")
+    try:
+        c["saved"] = json.loads(c["bytes"].decode("utf-8"))
+    except (ValueError, RecursionError) as e:      # JSONDecodeError, UnicodeDecodeError, digit limit
+        c["saved"], c["unparsable"] = None, f"{type(e).__name__}: {str(e)[:200]}"
+
+
 async def c13_impl(cases):
     """cases: list of dict(label, nodes, replay).  Fills in what the implementation did."""
     for c in cases:
@@ -874,19 +1090,18 @@ async def c13_impl(cases):
         c["save"] = await impl_save(path, nodes)
         c["saved"] = None
         if c["save"] == "ok":
-            with open(path, encoding="utf-8") as f:
-                c["text"] = f.read()
-            with open(path, "rb") as f:
-                c["bytes"] = f.read()
-            c["saved"] = json.loads(c["text"])
+            read_saved(path, c)
+        if c["save"] == "ok":
             c["load"], c["loaded"] = await impl_load(path)
-            lp = fresh_path()
-            c["legacy_value"] = legacy_of(c["saved"])
-            with open(lp, "w", encoding="utf-8") as f:
-                json.dump(c["legacy_value"], f)
-            c["legacy_load"], c["legacy_loaded"] = await impl_load(lp)
-            os.unlink(lp)
-        os.unlink(path)
+            if c["saved"] is not None:
+                lp = fresh_path()
+                c["legacy_value"] = legacy_of(c["saved"])
+                with open(lp, "w", encoding="utf-8") as f:
+                    json.dump(c["legacy_value"], f)
+                c["legacy_load"], c["legacy_loaded"] = await impl_load(lp)
+                os.unlink(lp)
+        if os.path.exists(path):
+            os.unlink(path)
 
 
 # ---- C13, sessions: every save of ONE running gateway must write the registry it holds ----------
@@ -1021,8 +1236,9 @@ async def run_session(sc: dict) -> dict:
                 os.unlink(cp)
             rec["load"], loaded = _LOADED[rec["bytes"]]
             rec["why"] = same_registry(nodes, loaded) if rec["load"].startswith("ok ") else None
-            rec["surrogate"] = reg_has_surrogate(nodes)
-            rec["ops"] = reg_ops(nodes)
+            # (a registry holding something the model's typed Registry cannot hold is judged by the oracle alone)
+            rec["surrogate"] = ill_typed(nodes) is not None or reg_has_surrogate(nodes)
+            rec["ops"] = [] if rec["surrogate"] else reg_ops(nodes)
             if not rec["load"].startswith("ok ") or rec["why"]:
                 rec["describe"] = describe(nodes)
         points.append(rec)
@@ -1377,7 +1593,7 @@ def session_compare(corr: Corr, batch: "Batch", pending: list) -> None:
             corr.disagree("bytes written by a save of the running gateway vs saveText of the registry it holds",
                           {**rp, "first_difference_at": k, "impl": text[max(0, k - 200):k + 200], "model": mt[max(0, k - 200):k + 200]})
         ls = batch[m["loadsave"]]
-        if ls.startswith("ok ") != p["load"].startswith("ok ") or (ls.startswith("ok ") and parse_reg(ls[3:]) != parse_reg(p["load"][3:])) \
+        if ls.startswith("ok ") != p["load"].startswith("ok ") or (ls.startswith("ok ") and not same_reg_text(ls[3:], p["load"][3:])) \
                 or (not ls.startswith("ok ") and ls != p["load"]):
             corr.disagree("load of the file a running gateway saved vs load (save r)", {**rp, "impl": p["load"][:1500], "model": ls[:1500]})
 
@@ -1731,8 +1947,8 @@ async def run_overlap(sc: dict) -> dict:
             _LOADED[rec["bytes"]] = await impl_load(cp)
             os.unlink(cp)
         rec["load"], loaded = _LOADED[rec["bytes"]]
-        rec["surrogate"] = reg_has_surrogate(held_nodes)
-        rec["ops"] = reg_ops(held_nodes)
+        rec["surrogate"] = ill_typed(held_nodes) is not None or reg_has_surrogate(held_nodes)
+        rec["ops"] = [] if rec["surrogate"] else reg_ops(held_nodes)
         trace.append(f"{len(trace)}: load a copy of the file ({len(rec['bytes'])} bytes) into an empty registry -> {rec['load'][:60]}")
         if not rec["load"].startswith("ok "):
             res["why"] = ("the file left behind by a session that ended while a scheduled save was in flight is not accepted by load: "
@@ -1902,9 +2118,53 @@ def overlap_checks(ctx, corr: Corr, batch: "Batch") -> list:
     return pending
 
 
+def coverage_of_wire_case(corr: Corr, c: dict, kinds: dict) -> None:
+    """Counts (evidence only) how the saved registry of a history-driven case came about."""
+    f = c["facts"]
+    proto = c["of"].split(",")[0] if c["of"].startswith("wire-systematic") else c["label"]
+    for k, v in f.items():
+        if v and k != "kind":
+            corr.count(f"saved registry ({proto}): {k}")
+    if c["of"].startswith("wire-systematic") and f.get("kind"):
+        kinds.setdefault(proto, set()).add(f["kind"])
+
+
+def judge_roundtrip(corr: Corr, c: dict) -> None:
+    """C13's statement on one case (registry c["nodes"], what save / load / the legacy spelling did: c13_impl)."""
+    rp = c["replay"]
+    shown = {**rp, "file": c.get("text", "")[:2000]}
+    if c["save"] != "ok":
+        corr.violate(f"save failed: {c['save']}", rp)
+    elif not c["load"].startswith("ok "):
+        corr.violate(f"a file written by save is not accepted by load: {c['load']}"
+                     + (f" (json.loads: {c['unparsable']})" if c.get("unparsable") else ""), shown)
+    else:
+        why = same_registry(c["nodes"], c["loaded"])
+        if why:
+            corr.violate("save then load does not reproduce the registry: " + why, shown)
+        if "legacy_load" not in c:
+            corr.count("legacy spelling not derived (the saved file is not JSON for json.loads although load accepted it)")
+        elif not c["legacy_load"].startswith("ok "):
+            corr.violate(f"the pymysensors spelling of a saved file is rejected: {c['legacy_load']}",
+                         {**rp, "legacy": json.dumps(c["legacy_value"])[:2000]})
+        else:
+            why = same_registry(c["loaded"], c["legacy_loaded"])
+            if why:
+                corr.violate("legacy and native layout load to different registries: " + why,
+                             {**rp, "legacy": json.dumps(c["legacy_value"])[:2000]})
+
+
 def run_c13(ctx) -> Corr:
     corr = Corr("C13", "registries reached by running wire histories on the real Gateway (boundary histories named by the "
-                "property, then random histories over 5 versions) and directly constructed registries (boundary content: "
+                "property; systematic histories for each of the 5 versions, with the gateway's version known at start and not "
+                "known: an id request as the first message, every handler the generated tables list for that version - node/"
+                "child presentation, set, req, every internal type with a handler, every stream type - on the node that was "
+                "handed an id and never presents itself, on a presented node, on the gateway's node and on an unregistered "
+                "node, the version becoming known in between; then random histories over 5 versions), saved at the end AND "
+                "inside the history (systematic / boundary / corpus: after every step that changed the registry; random: at "
+                "one random step, two in the thorough tier; a registry already saved is not saved twice; whatever the registry holds - None, a value of "
+                "another type - is rendered and judged, a registry the model's typed Registry cannot hold by the oracle alone), "
+                "and directly constructed registries (boundary content: "
                 "negative/huge/digit-limit integers, empty/non-ASCII/control-character strings, unsorted insertion order), "
                 "each saved by the real Persistence.save to a real file and loaded by the real Persistence.load into an "
                 "empty dict; oracle = every attribute the property lists is reproduced with the same type, and the "
@@ -1941,63 +2201,86 @@ def run_c13(ctx) -> Corr:
     cases = []
 
     async def prepare():
+        seen: set = set()
+
+        async def wire(label: str, h: gw.Hist, points) -> None:
+            """The registry at the end of the history and the registries at its save points: one case each (a registry
+            that was already saved - the same rendering - is not saved again)."""
+            final, snaps, facts_end = await run_history(h, points)
+            last = render_nodes(final)
+            for step, nodes, facts in snaps:
+                key = render_nodes(nodes)
+                if step == len(h.ops) or key == last or key in seen:
+                    corr.count("save point inside a history skipped (the same registry is saved elsewhere)")
+                    continue
+                seen.add(key)
+                short = gw.Hist(h.version, h.metric, h.preload, h.ops[:step])
+                cases.append({"label": label.split(":")[0], "nodes": nodes, "facts": facts, "of": label,
+                              "replay": {"roundtrip": "history", "history": short.to_json(), "label": label, "save_after_step": step},
+                              "domain": True, "inner": True})
+            if not (points == "all" and last in seen):
+                seen.add(last)
+                cases.append({"label": label.split(":")[0], "nodes": final, "facts": facts_end, "of": label,
+                              "replay": {"roundtrip": "history", "history": h.to_json(), "label": label, "save_after_step": len(h.ops)},
+                              "domain": True})
+
         for c in lib.load_corpus("C13"):
             h = gw.Hist.from_json(c["history"])
-            cases.append({"label": "corpus:" + c["_file"], "nodes": await run_history(h), "replay": {"history": h.to_json()}, "domain": True})
-        for label, h in wire_histories(rng, ctx.tier):
-            cases.append({"label": label, "nodes": await run_history(h), "replay": {"history": h.to_json()}, "domain": True})
+            await wire("corpus:" + c["_file"], h, "all")
+        for label, h, points in wire_histories(rng, ctx.tier, lib.rng_for(ctx.seed, "c13-save-points")):
+            await wire(label, h, points)
         for label, reg in direct_registries(rng, ctx.tier):
             cases.append({"label": "direct:" + label, "nodes": reg, "replay": None, "domain": True})
         for label, reg in outside_registries():
             cases.append({"label": "outside:" + label, "nodes": reg, "replay": None, "domain": False})
         for c in cases:
             if c["replay"] is None:
-                c["replay"] = {"registry": describe(c["nodes"])}
+                c["replay"] = {"roundtrip": "registry", "registry": describe(c["nodes"]), "label": c["label"]}
         await c13_impl(cases)
 
     asyncio.run(prepare())
 
     batch = Batch()
+    kinds: dict = {}
     for c in cases:
         nodes = c["nodes"]
-        corr.count(c["label"].split(":")[0])
-        reachable = c["label"].split(":")[0] in ("corpus", "wire-boundary", "wire-random")
+        corr.count(c["label"].split(":")[0] + (" (saved inside the history)" if c.get("inner") else ""))
+        if "facts" in c:
+            coverage_of_wire_case(corr, c, kinds)
+        reachable = c["label"].split(":")[0] in ("corpus", "wire-boundary", "wire-random", "wire-systematic", "wire-tie-search")
         # ---- oracle (independent of the model)
+        bad = ill_typed(nodes)
         if c["domain"]:
             flagged = len(corr.violations)
-            if c["save"] != "ok":
-                corr.violate(f"save failed: {c['save']}", c["replay"])
-            elif not c["load"].startswith("ok "):
-                corr.violate(f"a file written by save is not accepted by load: {c['load']}", {**c["replay"], "file": c["text"][:2000]})
-            else:
-                why = same_registry(nodes, c["loaded"])
-                if why:
-                    corr.violate("save then load does not reproduce the registry: " + why, {**c["replay"], "file": c["text"][:2000]})
-                if not c["legacy_load"].startswith("ok "):
-                    corr.violate(f"the pymysensors spelling of a saved file is rejected: {c['legacy_load']}",
-                                 {**c["replay"], "legacy": json.dumps(c["legacy_value"])[:2000]})
-                else:
-                    why = same_registry(c["loaded"], c["legacy_loaded"])
-                    if why:
-                        corr.violate("legacy and native layout load to different registries: " + why,
-                                     {**c["replay"], "legacy": json.dumps(c["legacy_value"])[:2000]})
+            judge_roundtrip(corr, c)
             if not in_domain(nodes):
                 if not reachable:
                     raise RuntimeError("generator produced an out-of-domain registry: " + c["label"])
                 if len(corr.violations) == flagged:
                     corr.violate("a registry reached from received messages is outside the domain of the round-trip theorem "
-                                 "(node id / battery level / printable integers)", {**c["replay"], "registry": describe(nodes)})
-        nontrivial = (not c["domain"]) or any(
+                                 "(declared attribute types / node id / battery level / printable integers)"
+                                 + (f": {bad}" if bad else ""), {**c["replay"], "registry": describe(nodes)})
+        nontrivial = (not c["domain"]) or bad is not None or any(
             n.children or n.battery_level or n.heartbeat or n.sleeping or n.sketch_name or n.sketch_version for n in nodes.values())
         corr.case(render_nodes(nodes), nontrivial, {"label": c["label"], "registry": render_nodes(nodes)[:300], "load": c.get("load", "")[:120]})
         # ---- model
         c["m"] = None
         if ctx.model_ok and c["save"] == "ok":
+            if bad is not None or c["saved"] is None:
+                # the model's Registry holds typed values only, its JSON parser is compared on texts json.loads accepts
+                corr.count("unmodelled: a registry with an attribute of another type than declared / a saved file json.loads "
+                           "rejects (judged by the oracle)")
+                continue
             if reg_has_surrogate(nodes) or json_has_surrogate(c["saved"]):
                 corr.count("unmodelled: lone surrogate")
                 continue
             for op in reg_ops(nodes):
                 batch.ask(op)
+            if c.get("inner"):
+                # a registry saved inside a history: the model is asked what the reachability theorems are about (the
+                # registry is in RegOK, load (save r)); the file-value and text questions are asked at the histories' ends
+                c["m_inner"] = {"regok": batch.ask("regok"), "loadsave": batch.ask("loadsave")}
+                continue
             c["m"] = {"save": batch.ask("save"), "regok": batch.ask("regok"), "loadsave": batch.ask("loadsave"),
                       "load": batch.ask("load " + json_tokens(c["saved"])), "legacy": batch.ask("legacy " + json_tokens(c["saved"])),
                       "legacy_load": batch.ask("load " + json_tokens(c["legacy_value"])),
@@ -2008,6 +2291,9 @@ def run_c13(ctx) -> Corr:
             if text_i % 3 == 0 and len(c["bytes"]) < 20000:     # generic values: str keys sort as strings, insertion order kept
                 c["m"]["jdumps"] = batch.ask("jdumps " + json_tokens(c["saved"]))
                 c["m"]["jrender"] = batch.ask("jrender " + json_tokens(c["legacy_value"]))
+    for proto, ks in sorted(kinds.items()):
+        corr.count(f"{proto}: kinds of message (command/type) after which the registry changed and was saved: "
+                   + " ".join(sorted(ks, key=lambda x: [int(y) if y.isdigit() else -1 for y in x.split('/')])))
     # fixtures
     fx = {}
     for name in ("test_aiomysensors_persistence.json", "test_pymysensors_persistence.json"):
@@ -2059,6 +2345,18 @@ def run_c13(ctx) -> Corr:
         if batch[h] != out:
             corr.disagree("fixture load", {"fixture": name, "impl": out, "model": batch[h]})
     for c in cases:
+        m = c.get("m_inner")
+        if m is None:
+            continue
+        rp = c["replay"]
+        want = "1" if in_domain(c["nodes"]) else "0"
+        if batch[m["regok"]] != want:
+            corr.disagree("RegOK (model) vs the domain restated in Python", {**rp, "model": batch[m["regok"]], "python": want})
+        ls = batch[m["loadsave"]]
+        if ls.startswith("ok ") != c["load"].startswith("ok ") or (ls.startswith("ok ") and not same_reg_text(ls[3:], c["load"][3:])) \
+                or (not ls.startswith("ok ") and ls != c["load"]):
+            corr.disagree("load (save r)", {**rp, "impl": c["load"][:1500], "model": ls[:1500]})
+    for c in cases:
         m = c["m"]
         if m is None:
             continue
@@ -2092,7 +2390,7 @@ def run_c13(ctx) -> Corr:
         if batch[m["load"]] != c["load"]:
             corr.disagree("load of the saved file", {**rp, "impl": c["load"][:1500], "model": batch[m["load"]][:1500]})
         ls = batch[m["loadsave"]]
-        if ls.startswith("ok ") != c["load"].startswith("ok ") or (ls.startswith("ok ") and parse_reg(ls[3:]) != parse_reg(c["load"][3:])) \
+        if ls.startswith("ok ") != c["load"].startswith("ok ") or (ls.startswith("ok ") and not same_reg_text(ls[3:], c["load"][3:])) \
                 or (not ls.startswith("ok ") and ls != c["load"]):
             corr.disagree("load (save r)", {**rp, "impl": c["load"][:1500], "model": ls[:1500]})
         if not jeq(parse_model_json(batch[m["legacy"]]), c["legacy_value"]):
@@ -2100,6 +2398,73 @@ def run_c13(ctx) -> Corr:
         if batch[m["legacy_load"]] != c["legacy_load"]:
             corr.disagree("load of the legacy spelling", {**rp, "impl": c["legacy_load"][:1500], "model": batch[m["legacy_load"]][:1500]})
     return corr
+
+
+# ---- C13: replaying a case of a replay file ------------------------------------------------------
+
+
+def replay(case: dict) -> int:
+    """Re-executes a C13 case on the implementation and prints it: the message history step by step (or the
+    constructed registry), the save, the file, the load of the file into an empty registry, the oracle's verdict; a
+    session (one gateway with a persistence file) is run again with its trace.  Returns 1 when the violation shows."""
+    c = Corr("C13", "replay")
+    if case.get("roundtrip") in ("history", "registry"):
+        async def go():
+            if case["roundtrip"] == "history":
+                h = gw.Hist.from_json(case["history"])
+                trace: list = []
+                nodes = await run_history(h, None, trace)
+                print(f"history ({case.get('label', '')}): gateway version at start "
+                      f"{'not known' if h.version is None else h.version}, {len(h.ops)} steps, saved after the last one")
+                for line in trace:
+                    print("  " + line)
+            else:
+                nodes = build(case["registry"])
+                print("registry constructed directly:", render_nodes(nodes)[:1500])
+            cc = {"label": "replay", "nodes": nodes, "replay": {}, "domain": True}
+            await c13_impl([cc])
+            return cc
+
+        cc = asyncio.run(go())
+        print("registry held     :", render_nodes(cc["nodes"])[:1500])
+        print("  (attributes)    :", json.dumps(describe(cc["nodes"]), default=str)[:1500])
+        print("Persistence.save  :", cc["save"])
+        if "text" in cc:
+            print("file written      :", cc["text"][:1500])
+            print("Persistence.load  :", cc.get("load", "")[:1500], "(into an empty registry, fresh Persistence object)")
+            if "legacy_load" in cc:
+                print("pymysensors layout:", cc["legacy_load"][:300])
+        judge_roundtrip(c, cc)
+        bad = ill_typed(cc["nodes"])
+        if not c.violations and not in_domain(cc["nodes"]):
+            c.violate("the registry is outside the domain of the round-trip theorem" + (f": {bad}" if bad else ""), {})
+    elif "session" in case and "hold" in case["session"]:
+        sc = {"label": case.get("scenario", "replay"), **case["session"]}
+        res = asyncio.run(run_overlap(sc), loop_factory=GateLoop)
+        for line in res["trace"]:
+            print("  " + line)
+        if res["why"]:
+            c.violate(res["why"], {})
+    elif "session" in case:
+        sc = {"label": case.get("scenario", "replay"), **case["session"]}
+        res = asyncio.run(run_session(sc), loop_factory=ClockLoop)
+        for line in res["trace"]:
+            print("  " + line)
+        for p in res["points"]:
+            if p["observed"]:
+                print(f"  save point {p['nth']} ({p['kind']}, step {p['step']}): save {p['save']}; load of a copy of the file: "
+                      f"{p.get('load', 'no file')[:200]}" + (f"; {p['why']}" if p.get("why") else ""))
+        bad = session_failure(res)
+        if bad:
+            c.violate(bad[1], {})
+        elif any(p["observed"] and not p["domain"] for p in res["points"]):
+            c.violate("a registry reached from received messages is outside the domain of the round-trip theorem", {})
+    else:
+        print(json.dumps(case, indent=1, default=str)[:4000])
+        print("(not a re-executable C13 case)")
+        return 0
+    print("oracle:", "held" if not c.violations else "VIOLATED - " + "; ".join(v["what"] for v in c.violations))
+    return 1 if c.violations else 0
 
 
 # ---- C14 -----------------------------------------------------------------------------------------
@@ -2424,10 +2789,15 @@ def run_c14(ctx) -> Corr:
         out = []
         for reg in (sample_registry(), direct_registries(lib.rng_for(ctx.seed, "c14-base"), "quick")[2][1]):
             p = fresh_path()
-            await impl_save(p, reg)
-            with open(p, "rb") as f:
-                out.append(f.read())
-            os.unlink(p)
+            saved = await impl_save(p, reg)
+            data = snapshot(p)
+            if saved != "ok" or data is None or py_loads(data.decode("utf-8", "replace"))[0] != "ok":
+                # C14 is about load: when this tree's save does not give a valid file, the base files are written here
+                corr.notes.append(f"base file written by the harness (this tree's save: {saved})")
+                data = json.dumps(native_value(reg), sort_keys=True, indent=2).encode("utf-8")
+            out.append(data)
+            if os.path.exists(p):
+                os.unlink(p)
         return out
 
     base_texts = asyncio.run(texts())
@@ -2503,8 +2873,7 @@ def run_c14(ctx) -> Corr:
             out, nodes = await impl_load(p, cur)
             created = None
             if os.path.exists(p):
-                with open(p, encoding="utf-8") as f:
-                    created = f.read()
+                created = snapshot(p).decode("utf-8", "replace")
                 back, loaded = await impl_load(p)
                 os.unlink(p)
             else:
@@ -2693,6 +3062,6 @@ def run_c14(ctx) -> Corr:
         mo, _, mcreated = batch[h].partition(" created=")
         if mo != out:
             corr.disagree("load outcome", {"label": kind, "into": before, "impl": out, "model": mo})
-        if kind == "missing" and created is not None and not jeq(parse_model_json(mcreated), json.loads(created)):
+        if kind == "missing" and created is not None and not (py_loads(created)[0] == "ok" and jeq(parse_model_json(mcreated), json.loads(created))):
             corr.disagree("file created for a missing path", {"label": kind, "into": before, "impl": created[:800], "model": mcreated[:800]})
     return corr
